@@ -5,6 +5,9 @@ import NA.Proofs.C20Http
 import NA.Proofs.C20Sites
 import NA.Proofs.C20RefCount
 import NA.Proofs.C20Banner
+import NA.Proofs.C20Status
+import NA.Proofs.C20Msg
+import NA.Proofs.C20Cycle
 import NA.Gen.PanicSites
 /-!
 # C20 — malformed input ends in a diagnostic, never in a crash
@@ -419,10 +422,96 @@ example : Files.loadInfoFile true [.notExist, .content true true false] = .ok fa
 example : (∀ o ∈ [Files.OpenRes.notExist, .content true false true], o ≠ .otherErr ∧
     ∀ d n i, o = .content d n i → d = true) := by decide
 
-theorem no_panic_statusRead (r v : Bool) : NoPanic (Files.statusRead r v) := Files.statusRead_noPanic r v
+/-! ## the status file as bytes (audit follow-up: replaces the vacuous `no_panic_statusRead`) -/
 
-theorem no_panic_typeAssert (k : Backend.Kind) : NoPanic (Backend.assertKind k (Backend.produce k)) :=
-  Backend.assertKind_noPanic k
+/-- Bytes that are not JSON, or JSON whose top-level value is not an object (array, number,
+string, bool, null): `status.Read` yields the zero status … -/
+theorem status_nonObject_is_zero (t : Status.Top) (h : ∀ kvs, t ≠ .obj kvs) : Status.decode t = {} :=
+  Status.decode_nonObject t h
+/-- … unknown keys, an action that is not an object, a field of the wrong kind or a number that is
+no int64 leave the value as it was (decoding goes on with the next key) … -/
+theorem status_unknown_key_ignored (s : Status.St) (k : Str) (f : Status.Field)
+    (h1 : Status.keyIs k "approve" = false) (h2 : Status.keyIs k "compare" = false) :
+    Status.stepTop s (k, f) = s := Status.stepTop_unknown s k f h1 h2
+theorem status_action_nonObject_ignored (a : Status.Action) (f : Status.Field) (h : ∀ kvs, f ≠ .obj kvs) :
+    Status.decodeAction a f = a := Status.decodeAction_nonObject a f h
+theorem status_bad_time_ignored (a : Status.Action) (k l : Str) (hk : Status.keyIs k "time" = true)
+    (h1 : Status.keyIs k "result" = false) (h2 : Status.keyIs k "policy" = false) (h : Status.int64Of l = none) :
+    Status.stepAction a (k, .num l) = a := Status.stepAction_time_bad a k l hk h1 h2 h
+/-- … and `missing-approve` LISTS the device for every unreadable, non-JSON or wrong-shaped status
+file; it does not list a device only if a record of a successful approve or an UPTODATE compare
+with a policy name was decoded. -/
+theorem status_garbage_is_listed (readable : Bool) (t : Status.Top)
+    (h : readable = false ∨ ∀ kvs, t ≠ .obj kvs) (current : Str) :
+    Status.check (Status.read readable t) current = .listed := Status.garbage_is_listed readable t h current
+theorem status_not_listed_needs_record (v : Status.St) (current : Str) (h : Status.check v current ≠ .listed) :
+    ((v.approve.result = lit "OK" ∨ v.approve.result = lit "WARNINGS") ∧ v.approve.policy ≠ []) ∨
+    (v.compare.result = lit "UPTODATE" ∧ v.compare.policy ≠ []) := Status.check_not_listed v current h
+/-- The status package has ONE panic: `panic(err)` in `write` when the file cannot be written
+(pinned by ios_simul.t "do-approve approve: can't write status directory"); whatever was read. -/
+theorem status_write_panics_iff_unwritable (v : Status.St) (policy : Str) (failed : Bool) (now : Int) (w : Bool) :
+    (Status.setApprove v policy failed now w).isPanic = !w := Status.setApprove_panic_iff v policy failed now w
+theorem no_panic_status_setCompare (v : Status.St) (policy : Str) (changed : Bool) (now : Int) :
+    NoPanic (Status.setCompare v policy changed now true) := Status.setCompare_writable_noPanic v policy changed now
+
+example : Status.decode (.obj [(lit "Approve", .obj [(lit "RESULT", .str (lit "OK")), (lit "time", .num (lit "7")),
+      (lit "time", .num (lit "1.5")), (lit "policy", .null), (lit "policy", .str (lit "p1"))]),
+    (lit "approve", .arr), (lit "x", .null)]) = { approve := ⟨lit "OK", lit "p1", 7⟩, compare := {} } := by rfl
+example : Status.int64Of (lit "99999999999999999999") = none ∧ Status.int64Of (lit "-5") = some (-5) ∧
+    Status.int64Of (lit "1e3") = none := by decide
+
+/-! ## messages name the offending input -/
+
+/-- Every rejection by the line loop of `ParseConfig` quotes a line of the file (ASA and IOS tables
+or any other), … -/
+theorem rejection_names_line (ds : List Descr) (isRaw : Bool) (data m : Str)
+    (h : parseConfig true ds isRaw data = .diag m) : ∃ l ∈ splitLines data, Names m (trimRight l) :=
+  parseConfig_diag_names_line ds isRaw data m h
+/-- … every rejection by `postprocessACLParts`, the aaa-server normalisation, `dstOfRoute`,
+`routeVRF`, `setTransRef` quotes the command, … -/
+theorem rejection_names_command (tb : Tables) (orig : Str) :
+    (∀ parts m, aclParts true tb orig parts = .diag m → Names m orig) ∧
+    (∀ parsed m, aaaHost true orig parsed = .diag m → Names m orig) ∧
+    (∀ v6 parsed m, dstOfRoute true v6 orig parsed = .diag m → Names m orig) ∧
+    (∀ parsed m, routeVRF true orig parsed = .diag m → Names m orig) ∧
+    (∀ names m, transRefs true orig names = .diag m → Names m orig) :=
+  ⟨fun p m h => aclParts_diag_names tb orig p m h, fun p m h => aaaHost_diag_names orig p m h,
+   fun v p m h => dstOfRoute_diag_names v orig p m h, fun p m h => routeVRF_diag_names orig p m h,
+   fun n m h => transRefs_diag_names orig n m h⟩
+/-- … and a dangling reference is reported with the command, the prefix and the name. -/
+theorem rejection_names_reference (lk : Lookup) (isRaw : Bool) (orig : Str) (typRef refs : List Str) (m : Str)
+    (h : checkRefs lk isRaw orig typRef refs = .diag m) :
+    Names m orig ∧ ∃ p ∈ typRef, ∃ n ∈ refs, Names m p ∧ Names m n :=
+  checkRefs_diag_names lk isRaw orig typRef refs m h
+
+example : ∃ m, parseConfig true miniTable true (lit "interface E0\nbogus line\n") = .diag m ∧
+    Names m (lit "bogus line") := ⟨_, rfl, names_mid _ _ _⟩
+
+/-! ## PAN-OS: the cycle check establishes the rank function (no longer assumed) -/
+
+/-- Soundness of `checkGroupCycle` (depth-first search, states visiting/done): if it returns without
+reporting a cycle and was started on all groups, the group graph has a rank function. -/
+theorem checkGroupCycle_sound (G : Str → Option (List Str)) (fuel : Nat) (names d : List Str)
+    (hall : ∀ n, G n ≠ none → n ∈ names) (h : PanOs.checkGroupCycle G fuel names = .ok d) :
+    PanOs.Ranked G (fun x => PanOs.rkR x d.reverse) := PanOs.checkGroupCycle_ranked G fuel names d hall h
+
+/-- Hence: after a successful cycle check, `getObjListType` and `markAddresses` stay within a stack
+of (number of finished groups + 3) frames, for ANY list they are called with. -/
+theorem no_overflow_after_cycleCheck (G : Str → Option (List Str)) (isAddr : Str → Bool) (fuel : Nat)
+    (names d : List Str) (hall : ∀ n, G n ≠ none → n ∈ names)
+    (h : PanOs.checkGroupCycle G fuel names = .ok d) (l : List Str) :
+    NoPanic (PanOs.objListType G isAddr (d.length + 3) l) ∧ NoPanic (PanOs.markAddresses G (d.length + 3) l) := by
+  have hr := checkGroupCycle_sound G fuel names d hall h
+  have hb : ∀ e ∈ l, PanOs.rkR e d.reverse + 1 < d.length + 3 := fun e _ => by
+    have := PanOs.rank_le_groups e d; omega
+  exact ⟨PanOs.objListType_noPanic G isAddr _ hr _ l hb (by omega),
+    PanOs.markAddresses_noPanic G _ hr _ l hb (by omega)⟩
+
+def twoGroups : Str → Option (List Str) := fun n =>
+  if n = lit "g0" then some [lit "g1", lit "a1"] else if n = lit "g1" then some [lit "a1"] else none
+example : PanOs.checkGroupCycle twoGroups 5 [lit "g0", lit "g1"] = .ok [lit "g1", lit "g0"] := by rfl
+example : PanOs.checkGroupCycle (fun n => if n = lit "g0" then some [lit "g0"] else none) 5 [lit "g0"] =
+    .diag (PanOs.cycleMsg (lit "g0")) := by rfl
 
 /-! ## every panic site and guard of the modelled functions is in the table -/
 
@@ -599,6 +688,10 @@ def obligations : List Lean.Name := [
   ``no_panic_panos_checkRaw, ``no_panic_panos_mergeSpoc, ``no_panic_panos_getDevName, ``no_panic_panos_devNameFor,
   ``panos_checkRaw_counterexample, ``panos_mergeSpoc_counterexample, ``panos_getDevName_counterexample,
   ``loadInfoFile_null_counterexample, ``loadInfoFile_garbage_counterexample, ``no_panic_loadInfoFile_partial,
-  ``loadInfoFile_only_explicit, ``no_panic_statusRead, ``no_panic_typeAssert]
+  ``loadInfoFile_only_explicit,
+  ``status_nonObject_is_zero, ``status_unknown_key_ignored, ``status_action_nonObject_ignored, ``status_bad_time_ignored,
+  ``status_garbage_is_listed, ``status_not_listed_needs_record, ``status_write_panics_iff_unwritable,
+  ``no_panic_status_setCompare, ``rejection_names_line, ``rejection_names_command, ``rejection_names_reference,
+  ``checkGroupCycle_sound, ``no_overflow_after_cycleCheck]
 
 end NA.C20
